@@ -1,6 +1,7 @@
 pub mod common;
 pub mod c21;
 pub mod c22;
+pub mod c15;
 pub mod probe;
 pub mod hist;
 pub mod traceops;
